@@ -21,6 +21,11 @@ package main
 //   okQ violated (an arrival ran its locked part on a stale window, i.e.
 //                 after a boundary and before the roll-over pass)          -> F-C10b
 //   neither: not a known finding.
+// Suite atomic (atomic.go) adds nothing to the rules; it only refines the
+// signature: a size-bound hit in a history in which some operation completed
+// between an admission decision and its push is "size-bound:enqueue-not-atomic",
+// a waiter that called Enqueue before a pass, started to wait only after it and
+// is then left to expire with quota free is "strand:enqueue-not-atomic".
 
 import (
 	"fmt"
@@ -38,6 +43,7 @@ type mreq struct {
 	ts, ttl, at    int64
 	mark           string
 	unparkedAtPass bool
+	passInside     bool // a roll-over pass completed between its admission decision and its push
 }
 
 func better(a, b *mreq) bool { // a strictly before b in (priority, arrival) order
@@ -57,7 +63,18 @@ func monitor(k *Case) []c.Hit {
 	var waiting []*mreq
 	rel := map[int64]int64{}
 	lastRefresh := k.QueueT0
-	anyStale, anyUnparked := false, false
+	anyStale, anyUnparked, notAtomic := false, false, false
+	for _, e := range k.Events {
+		if e.K == "arrive" && e.RanInside > 0 {
+			notAtomic = true
+		}
+	}
+	sizeSig := func() string {
+		if notAtomic { // some operation completed between an admission decision and the push it admitted
+			return sigNotAtomicSize
+		}
+		return "size-bound"
+	}
 
 	best := func() *mreq {
 		var b *mreq
@@ -115,7 +132,10 @@ func monitor(k *Case) []c.Hit {
 	}
 
 	for _, e := range k.Events {
-		if e.K != "ret" {
+		// a request that called Enqueue before a pass and started to wait only
+		// after it is judged as a waiter of that pass: the arrival first, then the pass
+		late := e.K == "arrive" && e.PassInside && !e.Immediate
+		if e.K != "ret" && !late {
 			closePass()
 		}
 		switch e.K {
@@ -124,8 +144,10 @@ func monitor(k *Case) []c.Hit {
 			if stale {
 				anyStale = true
 			}
-			lastRefresh = e.At
-			r := &mreq{id: e.ID, prio: e.Prio, ts: e.Ts, ttl: e.TTL, at: e.At}
+			if e.At > lastRefresh {
+				lastRefresh = e.At
+			}
+			r := &mreq{id: e.ID, prio: e.Prio, ts: e.Ts, ttl: e.TTL, at: e.At, passInside: late}
 			reqs[e.ID] = r
 			switch {
 			case e.Immediate && e.Result:
@@ -141,12 +163,15 @@ func monitor(k *Case) []c.Hit {
 			default:
 				waiting = append(waiting, r)
 				if int64(len(waiting)) > k.QSize {
-					add("size-bound", fmt.Sprintf("at most %d waiters", k.QSize),
+					add(sizeSig(), fmt.Sprintf("at most %d waiters", k.QSize),
 						fmt.Sprintf("%d waiters after request %d at %d", len(waiting), e.ID, e.At))
 				}
 			}
 			if e.Count > k.QSize && k.QSize >= 0 {
-				add("size-bound", fmt.Sprintf("Counts() total <= %d", k.QSize), fmt.Sprintf("%d at %d", e.Count, e.At))
+				add(sizeSig(), fmt.Sprintf("Counts() total <= %d", k.QSize), fmt.Sprintf("%d at %d", e.Count, e.At))
+			}
+			if late {
+				closePass()
 			}
 		case "pass":
 			lastRefresh = e.At
@@ -174,6 +199,8 @@ func monitor(k *Case) []c.Hit {
 			if r.mark != "" {
 				sig := "strand:" + r.mark[:indexAt(r.mark)]
 				switch {
+				case r.passInside:
+					sig = sigNotAtomicStrand
 				case r.unparkedAtPass:
 					sig = sigLost
 				case anyStale:
